@@ -413,6 +413,7 @@ def run(ctx, rep):
     queue_drained(F, rep)
     module_identity(F, rep)
     names_import_shares(F, rep)
+    exports_declared_once(F, rep)
 
 
 def rules_fn_arg(fn, op):
@@ -612,3 +613,21 @@ def names_import_shares(F, rep):
                "ok" if ok else "violated",
                "" if ok else "the registered value also comes from %s: an exported list is handed over as a private copy and later in-place changes are not shared"
                % (built + foreign), c.span, fn=h.path, key="C11.shared-instance|names-import|#%d" % i)
+
+
+
+def exports_declared_once(F, rep):
+    """At run time a module's export map takes each name once (`update_once`; a second `export x` stops the importer with `Double export`).
+    That is a property of the module's text, so the compiler refuses it: in ModuleType::from_node every Export::add is reached only on the
+    negative edge of a test whether the name is exported already."""
+    fm = need(F, "compiler::ast::r#type::ModuleType::from_node")
+    adds = fm.calls_to("compiler::ast::export::Export::add")
+    tests = [c for c in fm.calls() if c.callee().startswith("compiler::ast::export::Export::") and fm.locals[c.dst["l"]] == "bool"]
+    rep.floor("C11.export-once Export::add call sites", len(adds), 2)
+    for i, a in enumerate(adds):
+        if not tests:
+            v, info = "violated", "no test of the export list before the add: `export x: int = 1` twice compiles and the importer dies with `Double export`"
+        else:
+            v, info = rules.guarded_by_bool(fm, [a.bb], [t.dst["l"] for t in tests], want=False)
+        rep.ob("C11.export-once", "ModuleType::from_node adds an export only if the name is not exported yet", v, str(info) if v != "ok" else "", a.span, fn=fm.path,
+               key="C11.export-once|#%d" % i)
